@@ -8,7 +8,7 @@ task 0 plays the transport thread (peer DATA / EXTENDED_DATA(1) / EOF / CLOSE th
 ``Channel._feed`` / ``_feed_extended`` / ``_handle_eof`` / ``_handle_close`` - in paramiko these all run on
 the one transport thread, so they are never concurrent with each other) and 1-2 application
 tasks call ``recv(n)``, ``recv_stderr(n)`` (channel timeout 0 = non-blocking, so an empty buffer
-raises socket.timeout) and ``set_combine_stderr(True)``.  Switch points: every lock operation and every source line of
+raises socket.timeout; round 4: also blocking and timed), ``set_combine_stderr(True|False)`` and ``fileno()``.  Switch points: every lock operation and every source line of
 ``paramiko/pipe.py`` and ``paramiko/buffered_pipe.py``.
 
 Oracle, evaluated at every quiescent point (no task inside an operation) and at the end:
@@ -26,6 +26,34 @@ Round 3 dimensions:
     fileno().  Class zero-length-feed.  On the unchanged tree this shows a genuine defect (open finding
     "readable-with-nothing-pending|buffer-event-set-after-zero-length-feed", replays/C24/zero-length-data-marks-descriptor-readable.json,
     fixes/C24-empty-feed-marks-descriptor-readable.patch); it is NOT excluded from the generator.
+
+Round 4 dimensions:
+  * WHERE the first fileno() happens ("first_fileno"): "seq" - sequentially after the pre-history (as before) - or "task" - it is an
+    operation ("fileno",) of an application task, at a generated position (or a task of its own): other threads may be in the
+    middle of an operation, or PARKED IN A BLOCKING READ, when the descriptor comes into being; the oracle starts when the first
+    fileno() has returned.  ("fileno",) is in the application alphabet in both modes: repeated calls must hand out the same
+    descriptor (clause descriptor-changed).  Classes first-fileno-in-task, first-fileno-while-reader-parked,
+    first-fileno-while-other-op-in-progress, repeated-fileno.
+  * reads with the channel timeout None (blocking) or 5.0 virtual seconds (timed) next to the non-blocking ones: ("recv"|"recv_err",
+    n, timeout).  A reader parked inside BufferedPipe.read's Condition.wait has released the buffer lock and left nothing half
+    done, so a point where every other task is outside an operation is still quiescent and is checked.  A run that ends with
+    blocking readers parked for ever on an open, empty stream is what blocking reads do (class reader-parked-forever, final
+    check made); any other deadlock stays a violation.  Read sizes now include 16 (drains the stream whatever it holds: the
+    read that clears the stream's event).  Classes blocking-read, timed-read, blocking-read-started-before-first-fileno.
+  * set_combine_stderr both ways - ("combine", True|False) - before the first fileno(), in the start state and after it: the
+    setting at the first fileno() may differ from the one in force when data arrives.  Classes first-fileno-while-combined /
+    -separate, combine-switched-on/off-after-fileno, combine-differs-from-setting-at-first-fileno.
+  * balance: the start state holds no data in 1/4 of the cases and EOF/CLOSE less often, the transport task is in half of the cases
+    data-only or data with ONE ending, so that "nothing pending -> not readable" is decided about as often as the converse.
+  * two enumerated families, run completely in the quick tier without preemptions (k=0: every order in which the tasks can
+    take turns at blocking points and task ends) and, a seed-dependent part, with one line-level preemption; thorough: all with
+    <=2 / <=1 preemptions: (a) combine_stderr on/off at the first fileno() x an application switching it the other way [+ draining
+    read] x 5 transport programs; (b) three tasks: 5 transport programs || blocking/timed reader || the thread that makes the
+    first fileno() call [+ read].
+  * the verdict needs no private attribute of paramiko: buffer lengths fall back to recv_ready()/recv_stderr_ready(), the
+    OrPipe / PosixPipe flags only NAME the layer in the bucket ("layer-unobservable" when they are gone; an event that is not
+    attached counts as "not set").  Locks created inside paramiko.pipe while the bench runs are cooperative from birth
+    (threading shim), whatever object holds them.
 """
 import select
 import socket
@@ -40,13 +68,17 @@ PROPERTY = "C24"
 LEVEL = "exploration"
 THOROUGH_WORKERS = 16
 RULE = (
-    "start state (0-3 stdout bytes, 0-3 stderr bytes, peer EOF?, peer CLOSE?, combine_stderr?) x history before the first fileno() (none | 0-5 of peer DATA/EXTENDED_DATA "
-    "of 0-3 bytes, recv(n), recv_stderr(n), set_combine_stderr, EOF, CLOSE | 1-2 (message, read|combine) cycles) x one transport task (1-4 of peer "
-    "DATA / EXTENDED_DATA of 0-3 bytes (zero-length messages included) / EOF / CLOSE via the real handlers) + 1-2 application tasks (1-3 of recv(n), recv_stderr(n), set_combine_stderr) on a real Channel "
-    "(fake transport, real os.pipe/select) under the deterministic scheduler with line-level switch points in pipe.py and "
+    "start state (stdout/stderr bytes from {0,0,0,1,2,3}, peer EOF? 1/6, peer CLOSE? 1/8, combine_stderr? 1/4) x history before the first fileno() (none | 0-5 of peer DATA/EXTENDED_DATA "
+    "of 0-3 bytes, recv(n), recv_stderr(n), set_combine_stderr(True|False), EOF, CLOSE | 1-2 (message, read|combine) cycles) x one transport task (1-4 of peer "
+    "DATA / EXTENDED_DATA of 0-3 bytes (zero-length messages included) / EOF / CLOSE via the real handlers; or data only; or data with one EOF/CLOSE/EOF+CLOSE) + 1-2 (3) application tasks (1-3 of "
+    "recv(n) / recv_stderr(n) non-blocking, blocking (timeout None) or timed (5 virtual s), n in {1,2,3,4,16}; set_combine_stderr(True|False); fileno()) on a real Channel "
+    "(fake transport, real os.pipe/select) x first fileno() {sequential, after the pre-history | an operation inside an application task, concurrent with the others (incl. readers parked in a blocking read)} "
+    "under the deterministic scheduler with line-level switch points in pipe.py and "
     "buffered_pipe.py; schedules from a generated preemption list (<=3 anywhere + <=2 placed at the n-th line inside pipe.py set/clear) and, in thorough, all schedules with <=k preemptions "
-    "(k=3 lock-level, k=2 line-level) of 100 small transport||application programs; non-trivial = a task switch happened "
-    "inside OrPipe.set/clear or PosixPipe.set/clear/set_forever; distinct by SHA-1 of (start, program, schedule)"
+    "(k=3 lock-level, k=2 line-level) of 100 small transport||application programs, k=2 of 20 combine-toggle programs, k=1 of 40 three-task programs transport||blocking reader||first-fileno caller "
+    "(quick: 4 of the 100 with k=1, the 20+40 with k=0 and a quarter/eighth of them with k=1); oracle at every point where each task is outside an operation or parked in a read's wait, from the "
+    "return of the first fileno() on; non-trivial = a task switch happened "
+    "inside OrPipe.set/clear or PosixPipe.set/clear/set_forever, or the first fileno() ran while another task was inside an operation / parked in a read; distinct by SHA-1 of (start, program, schedule)"
 )
 
 PEER_OPS = ("out", "err", "eof", "pclose")
@@ -65,37 +97,84 @@ peer_op_st = st.one_of(
     st.tuples(st.just("eof")),
     st.tuples(st.just("pclose")),
 )
+# reads: 2-tuples are non-blocking (channel timeout 0.0, an empty stream raises socket.timeout); 3-tuples carry the channel timeout
+# in force for that read - None = blocking (the reader parks in BufferedPipe.read until fed / EOF / close), 5.0 = timed (virtual
+# seconds: the scheduler decides when the timeout fires)
+read_tmo_st = st.sampled_from([None, None, 5.0])
+# read sizes: 1-4 bytes (partial reads of what the feeds of 0-3 bytes piled up) and 16 = more than a stream can hold here (the
+# read that drains the stream completely is the one that clears the stream's event)
+read_n_st = st.sampled_from([1, 2, 3, 4, 4, 16, 16])
+_recv_nb = st.tuples(st.just("recv"), read_n_st)
+_recv_err_nb = st.tuples(st.just("recv_err"), read_n_st)
 app_op_st = st.one_of(
-    st.tuples(st.just("recv"), st.integers(1, 4)),
-    st.tuples(st.just("recv_err"), st.integers(1, 4)),
-    st.tuples(st.just("recv"), st.integers(1, 4)),
-    st.tuples(st.just("recv_err"), st.integers(1, 4)),
-    st.tuples(st.just("combine")),
+    _recv_nb,
+    _recv_err_nb,
+    _recv_nb.map(lambda v: v),
+    _recv_err_nb.map(lambda v: v),
+    st.tuples(st.just("recv"), read_n_st, read_tmo_st),
+    st.tuples(st.just("recv_err"), read_n_st, read_tmo_st),
+    st.tuples(st.just("combine"), st.booleans()),  # set_combine_stderr(True | False): the setting can be flipped at any time, both ways
+    st.tuples(st.just("fileno")),  # the first call creates the descriptor; later calls must hand out the same one
+)
+
+# the transport task: any 1-4 peer messages (data after EOF, repeated EOF/CLOSE included), or - so that the "nothing pending ->
+# not readable" half of the equivalence is exercised as often as the other half - data messages only, or data messages with a
+# single EOF / CLOSE / EOF+CLOSE somewhere among them
+_feed_op_st = st.one_of(st.tuples(st.just("out"), feed_size_st), st.tuples(st.just("err"), feed_size_st))
+_ending_st = st.sampled_from([[("eof",)], [("pclose",)], [("eof",), ("pclose",)]])
+peer_task_st = st.one_of(
+    st.lists(peer_op_st, min_size=1, max_size=4),
+    st.lists(_feed_op_st, min_size=1, max_size=4),
+    st.lists(_feed_op_st, min_size=1, max_size=4).map(lambda l: l),
+    st.builds(lambda l, e, at: l[: at % (len(l) + 1)] + e + l[at % (len(l) + 1) :], st.lists(_feed_op_st, min_size=0, max_size=3), _ending_st, st.integers(0, 3)),
 )
 
 # history of the channel BEFORE the first fileno() (sequential: the descriptor does not exist yet): feeds, reads - a stream may
 # have been filled and drained, partly or completely, any number of times -, combine, EOF, CLOSE
 _pre_feed = st.one_of(st.tuples(st.just("out"), feed_size_st), st.tuples(st.just("err"), feed_size_st))
-_pre_read = st.one_of(st.tuples(st.just("recv"), st.integers(1, 4)), st.tuples(st.just("recv_err"), st.integers(1, 4)))
+_pre_read = st.one_of(_recv_nb, _recv_err_nb)
 pre_op_st = st.one_of(
     _pre_feed, _pre_feed.map(lambda v: v), _pre_feed.map(lambda v: (v)),
     _pre_read, _pre_read.map(lambda v: v), _pre_read.map(lambda v: (v)),
-    st.just(("combine",)),  # set_combine_stderr(True): moves what stderr holds into stdout
+    st.sampled_from([("combine", True), ("combine", True), ("combine", False)]),  # set_combine_stderr: True moves what stderr holds into stdout
     st.sampled_from([("eof",), ("pclose",)]),
 )
 # second shape: 1-2 x (message, read | combine) - fill / drain cycles
-_pre_cycles = st.lists(st.tuples(_pre_feed, st.one_of(_pre_read, _pre_read.map(lambda v: v), st.just(("combine",)))), min_size=1, max_size=2).map(lambda l: [op for pair in l for op in pair])
+_pre_cycles = st.lists(st.tuples(_pre_feed, st.one_of(_pre_read, _pre_read.map(lambda v: v), st.sampled_from([("combine", True), ("combine", False)]))), min_size=1, max_size=2).map(lambda l: [op for pair in l for op in pair])
 pre_st = st.one_of(st.just([]), st.lists(pre_op_st, max_size=5), _pre_cycles)
 
 start_st = st.fixed_dictionaries(
     {
-        "out": st.integers(0, 3),
-        "err": st.integers(0, 3),
-        "eof": st.sampled_from([False, False, False, True]),
-        "closed": st.sampled_from([False, False, False, False, True]),
+        "out": st.sampled_from([0, 0, 0, 1, 2, 3]),
+        "err": st.sampled_from([0, 0, 0, 1, 2, 3]),
+        "eof": st.sampled_from([False, False, False, False, False, True]),
+        "closed": st.sampled_from([False, False, False, False, False, False, False, True]),
         "combine": st.sampled_from([False, False, False, True]),
     }
 )
+
+def _place_fileno(d):
+    """Where the FIRST fileno() call happens: "seq" = sequentially after the pre-history, before the tasks start (the descriptor
+    exists when the concurrency begins); "task" = inside the concurrent part, as an operation of an application task (an existing
+    one, at a generated position, or a task of its own) - other threads may be in the middle of an operation, or parked in a
+    blocking read, when the descriptor comes into being."""
+    at = d.pop("fileno_at")
+    tasks = [list(t) for t in d["tasks"]]
+    if at is None:
+        d["first_fileno"] = "seq"
+    else:
+        a, b = at
+        napps = len(tasks) - 1
+        slot = a % (napps + 1)
+        if slot == napps and napps < 3:
+            tasks.append([("fileno",)])
+        else:
+            t = tasks[1 + slot % napps]
+            t.insert(b % (len(t) + 1), ("fileno",))
+        d["first_fileno"] = "task"
+    d["tasks"] = tasks
+    return d
+
 
 case_st = st.fixed_dictionaries(
     {
@@ -103,12 +182,13 @@ case_st = st.fixed_dictionaries(
         "pre": pre_st,
         "tasks": st.builds(
             lambda peer, apps: [peer] + apps,
-            st.lists(peer_op_st, min_size=1, max_size=4),
+            peer_task_st,
             st.lists(st.lists(app_op_st, min_size=1, max_size=3), min_size=1, max_size=2),
         ),
+        "fileno_at": st.one_of(st.none(), st.tuples(st.integers(0, 5), st.integers(0, 3))),
         "sched": S.schedule_strategy(max_pre=3, max_gap=80, max_forced=10, max_hot=2, hot_range=14),
     }
-)
+).map(_place_fileno)
 
 CRITICAL = {("pipe.py", "set"), ("pipe.py", "clear"), ("pipe.py", "set_forever")}
 
@@ -116,6 +196,33 @@ CRITICAL = {("pipe.py", "set"), ("pipe.py", "clear"), ("pipe.py", "set_forever")
 def in_critical(tag):
     return tag[0] == "line" and (tag[1], tag[2]) in CRITICAL
 
+
+class _ThreadingShim:
+    """``threading`` for paramiko.pipe: locks created while the bench runs (make_or_pipe gives the two OrPipe halves a shared
+    one) are cooperative from birth - the first fileno() may run inside a task, concurrently with users of those locks."""
+
+    def __init__(self, sched):
+        self._s = sched
+        self._n = 0
+
+    def __getattr__(self, name):
+        import threading
+
+        return getattr(threading, name)
+
+    def Lock(self):
+        self._n += 1
+        return self._s.Lock("pipe.lock%d" % self._n)
+
+
+def _bit(obj, attr):
+    """'0'/'1' for a private flag used only to NAME the layer in a bucket; '?' when it cannot be observed."""
+    if obj is None:
+        return "0"
+    try:
+        return "1" if getattr(obj, attr) else "0"
+    except AttributeError:
+        return "?"
 
 
 class Bench:
@@ -130,12 +237,33 @@ class Bench:
         self.chan = CB.make_channel(self.s, self.ft, chanid=1, remote_chanid=7)
         self.chan.settimeout(0.0)
         self.fd = None
-        self.pipe = None
+        self.fds = []  # every descriptor fileno() ever returned (closed in cleanup through the channel's pipe)
         self.checks = []  # (where, readable, n_out, n_err, eof, closed, flags, zero-length feeds delivered so far)
         self.zero_feeds = 0
         self.pre_classes = set()
+        self.classes = set()
+        self.extra_viol = []
+        self.first_concurrent = False  # the first fileno() ran while another task was inside an operation / parked in a read
+        self.combine_at_fileno = None
+        self.inop = []
+        self.parked_forever = False
+        self._saved = []
 
-    def start(self, st_, pre=()):
+    # -- patching of paramiko.pipe's view of threading (whole bench) ---------------------
+    def __enter__(self):
+        PP = self.PP
+        if hasattr(PP, "threading"):
+            self._saved.append(("threading", PP.threading))
+            PP.threading = _ThreadingShim(self.s)
+        return self
+
+    def __exit__(self, *a):
+        for name, old in self._saved:
+            setattr(self.PP, name, old)
+        self._saved = []
+        self.cleanup()
+
+    def start(self, st_, pre=(), first_fileno="seq"):
         ft, chan = self.ft, self.chan
         if st_["combine"]:
             chan.set_combine_stderr(True)
@@ -152,6 +280,8 @@ class Bench:
         counter = [7]
         for op in pre:
             op = tuple(op)
+            if op[0] in ("recv", "recv_err") and len(op) > 2 and op[2] != 0.0:
+                raise HarnessError("the sequential history before fileno() cannot hold blocking reads: %r" % (op,))
             self.do(op, counter)
             if op[0] in fed:
                 fed[op[0]] += op[1]
@@ -162,32 +292,82 @@ class Bench:
             for k, ready in (("out", chan.recv_ready()), ("err", chan.recv_stderr_ready())):
                 if fed[k] and not ready and not st_[k] and not (st_["combine"] or any(tuple(op)[0] == "combine" for op in pre)):
                     self.pre_classes.add("stream-filled-and-drained-before-fileno")
-        self.fd = chan.fileno()
-        self.pipe = chan._pipe
-        if self.pipe is None or self.pipe.fileno() != self.fd:
-            raise HarnessError("Channel.fileno() no longer keeps its pipe in Channel._pipe")
-        self.p1 = chan.in_buffer._event
-        self.p2 = chan.in_stderr_buffer._event
-        for o in (self.p1, self.p2):
-            if type(o).__name__ != "OrPipe":
-                raise HarnessError("BufferedPipe._event is %r, expected an OrPipe" % (o,))
-        # forward compatibility: locks added to the pipe objects by a repair become cooperative
+        if first_fileno == "seq":
+            self.call_fileno()
+
+    # -- fileno() ----------------------------------------------------------------------------
+    def call_fileno(self, ti=None):
+        chan = self.chan
+        first = self.fd is None and not self.fds
+        if first:
+            self.combine_at_fileno = bool(chan.combine_stderr)
+            self.classes.add("first-fileno-while-combined" if self.combine_at_fileno else "first-fileno-while-separate")
+            if ti is not None:
+                self.classes.add("first-fileno-in-task")
+                for tj, busy in enumerate(self.inop):
+                    if tj == ti or not busy:
+                        continue
+                    self.first_concurrent = True
+                    self.classes.add("first-fileno-while-reader-parked" if self.parked_in_read(tj) else "first-fileno-while-other-op-in-progress")
+        else:
+            self.classes.add("repeated-fileno")
+        fd = chan.fileno()
+        if self.fds and fd != self.fds[-1]:
+            # "its descriptor": a later call handing out another descriptor leaves select() users on the earlier one behind
+            self.extra_viol.append(("descriptor-changed", "second-fileno-returns-another-descriptor", "fileno() returned %r, then %r" % (self.fds[-1], fd)))
+        self.fds.append(fd)
+        self.fd = fd
+        # forward compatibility: locks on the pipe objects that were not created through paramiko.pipe's ``threading`` become
+        # cooperative as well (no yield point between fileno() returning and this)
         memo = {}
-        S.coopify(self.s, self.p1, memo, prefix="orpipe1.")
-        S.coopify(self.s, self.p2, memo, prefix="orpipe2.")
-        S.coopify(self.s, self.pipe, memo, prefix="pipe.")
+        for name, o in (("orpipe1.", getattr(chan.in_buffer, "_event", None)), ("orpipe2.", getattr(chan.in_stderr_buffer, "_event", None)), ("pipe.", getattr(chan, "_pipe", None))):
+            if o is not None and hasattr(o, "__dict__"):
+                S.coopify(self.s, o, memo, prefix=name)
+
+    def parked_in_read(self, tj):
+        """Task tj is parked inside BufferedPipe.read's Condition.wait (its lock released, nothing half-done)."""
+        t = self.s.tasks[tj]
+        r = t.reason
+        return t.state == "blocked" and isinstance(r, tuple) and len(r) == 2 and r[0] == "cond" and "_buffer." in str(r[1])
+
+    def quiescent(self):
+        return all((not busy) or self.parked_in_read(tj) for tj, busy in enumerate(self.inop))
+
+    def pending(self):
+        """(n_out, n_err) - buffer lengths, for the verdict.  Read without taking the buffer locks (a lock operation is a switch
+        point); when the attribute is gone, through the public recv_ready()/recv_stderr_ready(), and the check is dropped if
+        another task got to run meanwhile."""
+        chan = self.chan
+        try:
+            return len(chan.in_buffer._buffer), len(chan.in_stderr_buffer._buffer)
+        except AttributeError:
+            pass
+        before = len(self.s.res.switches)
+        n_out = 1 if chan.recv_ready() else 0
+        n_err = 1 if chan.recv_stderr_ready() else 0
+        if len(self.s.res.switches) != before or not self.quiescent():
+            return None
+        return n_out, n_err
 
     def check(self, where):
         chan = self.chan
-        if chan._pipe is None:
+        if self.fd is None:
+            return  # the statement starts with the first fileno()
+        pend = self.pending()
+        if pend is None:
             return
+        n_out, n_err = pend
         readable = bool(select.select([self.fd], [], [], 0)[0])
-        n_out = len(chan.in_buffer._buffer)
-        n_err = len(chan.in_stderr_buffer._buffer)
-        flags = "p1=%d,p2=%d,pipe=%d,forever=%d" % (bool(self.p1._set), bool(self.p2._set), bool(self.pipe._set), bool(self.pipe._forever))
+        pipe = getattr(chan, "_pipe", None)
+        flags = "p1=%s,p2=%s,pipe=%s,forever=%s" % (
+            _bit(getattr(chan.in_buffer, "_event", None), "_set"),
+            _bit(getattr(chan.in_stderr_buffer, "_event", None), "_set"),
+            "?" if pipe is None else _bit(pipe, "_set"),
+            "?" if pipe is None else _bit(pipe, "_forever"),
+        )
         self.checks.append((where, readable, n_out, n_err, bool(chan.eof_received), bool(chan.closed), flags, self.zero_feeds))
 
-    def do(self, op, counter):
+    def do(self, op, counter, ti=None):
         ft, chan = self.ft, self.chan
         k = op[0]
         if k == "out":
@@ -202,14 +382,17 @@ class Bench:
             if not b:
                 self.zero_feeds += 1
             ft.deliver(CB.MSG_CHANNEL_EXTENDED_DATA, 1, 1, b)
-        elif k == "recv":
+        elif k in ("recv", "recv_err"):
+            tmo = op[2] if len(op) > 2 else 0.0
+            if tmo != 0.0:
+                self.classes.add("blocking-read" if tmo is None else "timed-read")
+                if self.fd is None:
+                    self.classes.add("blocking-read-started-before-first-fileno")
+            # the channel timeout in force for THIS read (no switch point between the two calls: channel.py is not traced and
+            # the timeout is evaluated before BufferedPipe.read is entered)
+            chan.settimeout(tmo)
             try:
-                chan.recv(op[1])
-            except socket.timeout:
-                pass
-        elif k == "recv_err":
-            try:
-                chan.recv_stderr(op[1])
+                (chan.recv if k == "recv" else chan.recv_stderr)(op[1])
             except socket.timeout:
                 pass
         elif k == "eof":
@@ -217,7 +400,15 @@ class Bench:
         elif k == "pclose":
             ft.deliver(CB.MSG_CHANNEL_CLOSE, 1)
         elif k == "combine":
-            chan.set_combine_stderr(True)
+            on = bool(op[1]) if len(op) > 1 else True
+            was = bool(chan.combine_stderr)
+            chan.set_combine_stderr(on)
+            if self.fds and was != on:
+                self.classes.add("combine-switched-%s-after-fileno" % ("on" if on else "off"))
+                if self.combine_at_fileno is not None and on != self.combine_at_fileno:
+                    self.classes.add("combine-differs-from-setting-at-first-fileno")
+        elif k == "fileno":
+            self.call_fileno(ti)
         else:
             raise HarnessError("bad op %r" % (op,))
 
@@ -227,16 +418,16 @@ class Bench:
             for op in ops:
                 if (op[0] in PEER_OPS) != (ti == 0):
                     raise HarnessError("task 0 is the transport thread (peer messages only), other tasks are applications: %r" % (tasks,))
-        inop = [False] * len(tasks)
+        inop = self.inop = [False] * len(tasks)
 
         def mk(ti, ops):
             def body():
                 counter = [1 + 50 * ti]
                 for oi, op in enumerate(ops):
                     inop[ti] = True
-                    self.do(op, counter)
+                    self.do(op, counter, ti)
                     inop[ti] = False
-                    if not any(inop):
+                    if self.quiescent():
                         self.check("after t%d.%d" % (ti, oi))
 
             return body
@@ -251,23 +442,49 @@ class Bench:
                 res = s.run()
         finally:
             PP.os = real_os
-        if res.outcome == "ok":
-            # after a deadlock/abort some task is parked in the middle of an operation: not quiescent
+        self.parked_forever = False
+        if res.outcome == "deadlock" and self.benign_deadlock(res):
+            # every unfinished task is a reader blocked (no timeout) on an open stream that holds nothing: that is what a
+            # blocking recv does; nothing is half-done, the state is quiescent
+            self.parked_forever = True
+            self.classes.add("reader-parked-forever")
+        if res.outcome == "ok" or self.parked_forever:
+            # after any other deadlock/abort some task is parked in the middle of an operation: not quiescent
             self.check("final")
         return res
 
+    def benign_deadlock(self, res):
+        chan = self.chan
+        pend = None
+        try:
+            pend = {"in_buffer": len(chan.in_buffer._buffer), "in_stderr_buffer": len(chan.in_stderr_buffer._buffer)}
+        except AttributeError:
+            return False
+        if not res.waits or chan.eof_received or chan.closed:
+            return False
+        for name, w in res.waits.items():
+            if not (isinstance(w, tuple) and len(w) == 2 and w[0] == "cond"):
+                return False
+            which = [k for k in ("in_stderr_buffer", "in_buffer") if ("." + k + ".") in str(w[1])]
+            if not which or pend[which[0]]:
+                return False
+        return True
+
     def cleanup(self):
-        p = self.pipe
-        if p is not None and not p._closed:
+        p = getattr(self.chan, "_pipe", None)
+        if p is not None and not getattr(p, "_closed", False):
             try:
                 p.close()
             except OSError:
                 pass
-        self.chan._pipe = None
+        try:
+            self.chan._pipe = None
+        except AttributeError:
+            pass
 
 
 def judge(bench, res):
-    viol = []
+    viol = list(bench.extra_viol)
     classes = set()
     crit = res.switched_in(in_critical, preempt_only=False)
     # a violation without any task switch inside the pipe operations is not a race between them
@@ -284,9 +501,12 @@ def judge(bench, res):
             pending.append("closed")
         should = bool(pending)
         p1, p2, pp, forever = [x.endswith("1") for x in flags.split(",")]
+        blind = "?" in flags.split(",", 2)[2]  # the pipe's own flags cannot be observed: name no layer
         # bucket = the layer whose bookkeeping is inconsistent (root cause), not the symptom
         if readable and not should:
-            if not (pp or forever):
+            if blind:
+                layer = "layer-unobservable"
+            elif not (pp or forever):
                 layer = "posixpipe-flag-clear-but-fd-readable"
             elif p1 or p2:
                 # a zero-length DATA / EXTENDED_DATA message was delivered earlier in this case: own bucket (it carries no data)
@@ -300,7 +520,9 @@ def judge(bench, res):
             else:
                 viol.append(("readable-with-nothing-pending", layer + seq, "%s: descriptor readable, buffers empty, no eof/close (%s)" % (where, flags)))
         elif should and not readable:
-            if pp or forever:
+            if blind:
+                layer = "layer-unobservable:" + "+".join(pending)
+            elif pp or forever:
                 layer = "posixpipe-flag-set-but-fd-empty"
             elif p1 or p2:
                 layer = "orpipe-half-set-but-pipe-clear"
@@ -309,12 +531,13 @@ def judge(bench, res):
             viol.append(("unreadable-with-pending", layer + seq, "%s: descriptor NOT readable although %s (%s)" % (where, "+".join(pending), flags)))
         classes.add("checked-readable" if readable else "checked-unreadable")
     if res.outcome == "deadlock":
-        kinds = sorted(set(w[0] if isinstance(w, tuple) else str(w) for w in res.waits.values()))
-        if "os.read" in kinds:
-            bucket = "blocked-in-PosixPipe.clear-os.read"
-        else:
-            bucket = "+".join(kinds)
-        viol.append(("deadlock", bucket, "waits=%r" % (res.waits,)))
+        if not bench.parked_forever:
+            kinds = sorted(set(w[0] if isinstance(w, tuple) else str(w) for w in res.waits.values()))
+            if "os.read" in kinds:
+                bucket = "blocked-in-PosixPipe.clear-os.read"
+            else:
+                bucket = "+".join(kinds)
+            viol.append(("deadlock", bucket, "waits=%r" % (res.waits,)))
     elif res.outcome == "budget":
         viol.append(("no-termination", "step-budget", "waits=%r" % (res.waits,)))
     elif res.outcome != "ok":
@@ -328,20 +551,22 @@ def judge(bench, res):
         classes.add("switch-inside-buffered_pipe")
     classes.add("quiescent-checks=%d" % min(len(bench.checks), 4))
     classes.update(bench.pre_classes)
+    classes.update(bench.classes)
     if bench.zero_feeds:
         classes.add("zero-length-feed")
-    return viol, classes, crit > 0
+    return viol, classes, (crit > 0 or bench.first_concurrent)
 
 
 def execute(ctx, case, strategy=None, trace="lines", extra_classes=()):
     strat = strategy if strategy is not None else S.strategy_from_case(case["sched"], in_critical)
-    b = Bench(strat, trace=case.get("trace", trace))
-    try:
-        b.start(case["start"], case.get("pre") or ())
-        res = b.run([[tuple(op) for op in t] for t in case["tasks"]])
+    first = case.get("first_fileno") or "seq"
+    tasks = [[tuple(op) for op in t] for t in case["tasks"]]
+    if first == "task" and not any(op[0] == "fileno" for t in tasks[1:] for op in t):
+        raise HarnessError("first_fileno=task but no application task calls fileno(): %r" % (tasks,))
+    with Bench(strat, trace=case.get("trace", trace)) as b:
+        b.start(case["start"], case.get("pre") or (), first)
+        res = b.run(tasks)
         viol, classes, nontrivial = judge(b, res)
-    finally:
-        b.cleanup()
     if strategy is not None and isinstance(strategy, S.DFSStrategy):
         case = dict(case)
         case["sched"] = {"dfs": [t[2] for t in strategy.trace]}
@@ -377,6 +602,35 @@ def dfs_programs():
     return progs
 
 
+_EMPTY = {"out": 0, "err": 0, "eof": False, "closed": False, "combine": False}
+# round 4 families (small enough to be enumerated in the quick tier as well)
+# (a) combine_stderr differs between the first fileno() and the traffic: first fileno() while combined, an application switches
+#     the combination off (or: first fileno() while separate, switched on) while the transport delivers
+DFS_COMBINE_APP = [[("combine", False)], [("combine", False), ("recv_err", 16)], [("combine", True)], [("combine", True), ("recv", 16)]]
+# (b) the first fileno() is made by one application thread while another one is parked in a blocking read and the transport
+#     delivers: three tasks
+DFS_READER = [[("recv", 16, None)], [("recv_err", 16, None)], [("recv", 16, 5.0)], [("recv", 1, None)]]
+DFS_FILENO = [[("fileno",)], [("fileno",), ("recv_err", 16)]]
+
+
+def dfs_combine_programs():
+    progs = []
+    for b in DFS_COMBINE_APP:
+        on = bool(b[0][1])
+        for a in DFS_PEER:
+            progs.append({"start": dict(_EMPTY, combine=not on), "pre": [], "tasks": [a, b]})
+    return progs
+
+
+def dfs_first_fileno_programs():
+    progs = []
+    for r in DFS_READER:
+        for f in DFS_FILENO:
+            for a in DFS_PEER:
+                progs.append({"start": dict(_EMPTY), "pre": [], "tasks": [a, r, f], "first_fileno": "task"})
+    return progs
+
+
 def run_dfs(ctx, programs, k, trace, limit, label):
     complete = True
     for prog in programs:
@@ -385,7 +639,7 @@ def run_dfs(ctx, programs, k, trace, limit, label):
             break
 
         def one(strategy, prog=prog):
-            case = {"start": prog["start"], "pre": prog.get("pre", []), "tasks": prog["tasks"], "sched": None, "trace": trace}
+            case = {"start": prog["start"], "pre": prog.get("pre", []), "tasks": prog["tasks"], "first_fileno": prog.get("first_fileno", "seq"), "sched": None, "trace": trace}
             execute(ctx, case, strategy=strategy, trace=trace, extra_classes=("dfs-" + label,))
 
         gen = S.enumerate_schedules(one, k, limit=limit)
@@ -408,15 +662,25 @@ def run(ctx):
     ctx.assume("switching granularity: source lines of pipe.py/buffered_pipe.py and lock operations (not bytecodes)")
     ctx.explore(case_st, lambda c: execute(ctx, c), ctx.scale(3500, 30000))
     progs = dfs_programs()
+    cprogs = dfs_combine_programs()
+    fprogs = dfs_first_fileno_programs()
     if ctx.tier == "thorough":
         mine = progs[ctx.worker :: ctx.nworkers]
         ok1 = run_dfs(ctx, mine, 3, "locks", 500000, "k3-locks")
         ok2 = run_dfs(ctx, mine, 2, "lines", 500000, "k2-lines")
-        ctx.exhaustive = bool(ok1 and ok2)
-        ctx.note("dfs_domain", "%d programs (5 start states, one of them filled and drained before fileno(), x 5 transport-thread programs x 4 application programs of 1-2 ops): all schedules with <=3 preemptions at lock-level switch points and <=2 preemptions at line-level switch points" % len(progs))
+        ok3 = run_dfs(ctx, cprogs[ctx.worker :: ctx.nworkers], 2, "lines", 500000, "combine-k2-lines")
+        ok4 = run_dfs(ctx, fprogs[ctx.worker :: ctx.nworkers], 1, "lines", 500000, "first-fileno-k1-lines")
+        ctx.exhaustive = bool(ok1 and ok2 and ok3 and ok4)
+        ctx.note("dfs_domain", "%d programs (5 start states, one of them filled and drained before fileno(), x 5 transport-thread programs x 4 application programs of 1-2 ops): all schedules with <=3 preemptions at lock-level switch points and <=2 preemptions at line-level switch points; %d programs (combine_stderr on/off at the first fileno() x an application switching it the other way [+ a draining read] x 5 transport programs): <=2 line-level preemptions; %d three-task programs (5 transport programs || a blocking/timed reader || the thread making the first fileno() call [+ a read]): <=1 line-level preemption" % (len(progs), len(cprogs), len(fprogs)))
     else:
         step = max(1, len(progs) // 4)
         run_dfs(ctx, progs[(ctx.seed % step) :: step][:4], 1, "lines", 300, "k1-lines")
+        # the two round-4 families completely, without preemptions (every order in which the tasks can take turns at their
+        # blocking points and ends), plus a seed-dependent quarter of them with one line-level preemption
+        run_dfs(ctx, cprogs, 0, "lines", 300, "combine-k0")
+        run_dfs(ctx, fprogs, 0, "lines", 300, "first-fileno-k0")
+        run_dfs(ctx, cprogs[(ctx.seed % 4) :: 4], 1, "lines", 150, "combine-k1-lines")
+        run_dfs(ctx, fprogs[(ctx.seed % 8) :: 8], 1, "lines", 150, "first-fileno-k1-lines")
 
 
 def replay(ctx, case):
